@@ -575,6 +575,12 @@ fn new_engine(tab: &mut HashMap<String, String>) -> Engine {
     reg_f!(e, tab, "f:map(string,i32)", "f1_map", (a: HashMap<String, i32>));
     reg_f!(e, tab, "f:set(i32)", "f1_set", (a: HashSet<i32>));
     reg_f!(e, tab, "f:rec", "f1_rec", (a: Rec));
+    reg_f!(e, tab, "f:pair(i32,i32)", "f1_pair_ii", (a: (i32, i32)));
+    reg_f!(e, tab, "f:vec(pair(i32,i32))", "f1_vec_pair", (a: Vec<(i32, i32)>));
+    reg_f!(e, tab, "f:opt(pair(i32,i32))", "f1_opt_pair", (a: Option<(i32, i32)>));
+    reg_f!(e, tab, "f:res(pair(i32,i32),string)", "f1_res_pair", (a: Result<(i32, i32), String>));
+    reg_f!(e, tab, "f:i32;pair(i32,i32)", "f2_i32_pair", (a: i32, b: (i32, i32)));
+    reg_m!(e, tab, "m:rec;pair(i32,i32)", "m2_pair", (a: (i32, i32)));
     reg_f!(e, tab, "f:i32;string", "f2_i32_string", (a: i32, b: String));
     reg_f!(e, tab, "f:u8;i64", "f2_u8_i64", (a: u8, b: i64));
     reg_f!(e, tab, "f:string;bool", "f2_string_bool", (a: String, b: bool));
@@ -685,6 +691,12 @@ macro_rules! both_types {
             "vec(vec(i16))" => $m::<Vec<Vec<i16>>>($($arg),*), "vec(opt(i32))" => $m::<Vec<Option<i32>>>($($arg),*),
             "vec(opt(bool))" => $m::<Vec<Option<bool>>>($($arg),*),
             "pair(i32,string)" => $m::<(i32, String)>($($arg),*), "pair(u8,bool)" => $m::<(u8, bool)>($($arg),*),
+            "pair(i32,i32)" => $m::<(i32, i32)>($($arg),*),
+            "vec(pair(i32,i32))" => $m::<Vec<(i32, i32)>>($($arg),*),
+            "opt(pair(i32,i32))" => $m::<Option<(i32, i32)>>($($arg),*),
+            "map(string,pair(i32,i32))" => $m::<HashMap<String, (i32, i32)>>($($arg),*),
+            "res(pair(i32,i32),string)" => $m::<Result<(i32, i32), String>>($($arg),*),
+            "pair(pair(i32,i32),vec(u8))" => $m::<((i32, i32), Vec<u8>)>($($arg),*),
             "pair(vec(i32),opt(u8))" => $m::<(Vec<i32>, Option<u8>)>($($arg),*),
             "map(string,i32)" => $m::<HashMap<String, i32>>($($arg),*),
             "map(i32,vec(u8))" => $m::<HashMap<i32, Vec<u8>>>($($arg),*),
